@@ -732,3 +732,28 @@ Theorem C03_loops_rs_match_model w : 0 < w ->
      Loops.last_digit_index w (Z.of_nat n) fuel a = Done (Z.of_nat (Div.last_digit_index a))).
 Proof. exact (loops_Div_match_model w). Qed.
 Print Assumptions C03_loops_rs_match_model.
+
+(* ---- tie to the source: Knuth's Algorithm D.  basecase_div_rem, with the structs Remainder / Mul, their methods and the
+   fn tuple_gt nested in its body, REGENERATED from /repo/src/buint/div.rs on every run (Generated/DivGen.v,
+   tools/rs2v_div.py; control-flow vocabulary Model/Imp.v + Model/ImpDiv.v) computes exactly the model's
+   basecase_div_rem: with an iteration budget of at least N + 1 it neither panics (index out of bounds, usize / digit
+   subtraction below zero, digit shift by >= the width) nor runs out of budget.  The hypotheses are structural only
+   (digit n-1 of the divisor non-zero, 2 <= n, the dividend has at least n significant digits); the second statement
+   instantiates them at the one call site, div_rem_unchecked's `Ordering::Greater` / `ldi != 0` branch. ---- *)
+From Bnum.Generated Require Import DivGen.
+From Bnum.Proofs Require Import DivGenTie.
+Theorem C03_knuth_rs_matches_model : forall w N a v n,
+  0 < w -> wf w N a -> wf w N v -> (2 <= n)%nat ->
+  (n <= Div.last_digit_index a + 1)%nat -> Div.nth_d (n - 1) v <> 0 ->
+  forall fuel, (S N <= fuel)%nat ->
+  DivGen.basecase_div_rem w (Z.of_nat N) fuel a v (Z.of_nat n) = Done (Div.basecase_div_rem w a v n).
+Proof. exact divgen_basecase. Qed.
+Print Assumptions C03_knuth_rs_matches_model.
+
+Theorem C03_knuth_rs_matches_model_at_call_site : forall w N a b,
+  0 < w -> wf w N a -> wf w N b -> ucmp a b = Gt -> Div.last_digit_index b <> 0%nat ->
+  forall fuel, (S N <= fuel)%nat ->
+  DivGen.basecase_div_rem w (Z.of_nat N) fuel a b (Z.of_nat (Div.last_digit_index b + 1)) =
+  Done (Div.basecase_div_rem w a b (Div.last_digit_index b + 1)).
+Proof. exact divgen_basecase_callsite. Qed.
+Print Assumptions C03_knuth_rs_matches_model_at_call_site.
